@@ -38,7 +38,10 @@ VARIANTS = {
     'bigendian': ('gcc', ['-O1', '-g0', '-w', '-DWASM_ENDIAN=1'], None, ['-lpthread', '-lm']),
 }
 
-ASAN_ENV = {'ASAN_OPTIONS': 'detect_leaks=0:exitcode=99:abort_on_error=0:allocator_may_return_null=1',
+ASAN_ENV = {'ASAN_OPTIONS': 'detect_leaks=0:exitcode=99:abort_on_error=0:allocator_may_return_null=1:'
+                            'max_malloc_fill_size=1073741824:malloc_fill_byte=165',
+            # dirty heap for plain builds, so that missing zero-initialisation is visible
+            'MALLOC_PERTURB_': '165', 'MALLOC_MMAP_THRESHOLD_': '33554432',
             'UBSAN_OPTIONS': 'print_stacktrace=1:halt_on_error=1:exitcode=98',
             'MSAN_OPTIONS': 'exitcode=97'}
 
@@ -441,7 +444,7 @@ DRIVER_MAIN = r'''
 int main(void) {
     static char line[1 << 16];
     vf_crc_init();
-    setvbuf(stdout, NULL, _IOFBF, 1 << 16);
+    if (getenv("VF_UNBUF")) setvbuf(stdout, NULL, _IONBF, 0); else setvbuf(stdout, NULL, _IOFBF, 1 << 16);
     while (fgets(line, sizeof line, stdin)) {
         char c = line[0];
         if (c == 'X') break;
